@@ -97,7 +97,7 @@ CLAIMED = {
    text="(1) PROVED (CBMC, loop-free, full domain) on the real text of tribool.h (Kleene and/or/not/andwk/orwk, conversions: every combination of sound answers is sound) and of the "
         "Number/Constant/Infty/NaN rules of the Zero/Positive/Negative/NonPositive/NonNegative/Real/Complex/Rational/Integer/Finite visitors against the ghost-number contracts: every "
         "definite answer is true of the operand's value for every number kind and the five named constants. (2) BOUNDED stand-in, not counted as proved: the combination rules "
-        "RealVisitor::bvisit(Add), RealVisitor::bvisit(Mul), PositiveVisitor::bvisit(Add) are checked against the CONTRACT of the recursive call (any sound answer about a child's ghost "
+        "RealVisitor::bvisit(Add), RealVisitor::bvisit(Mul), PositiveVisitor::bvisit(Add), IntegerVisitor::bvisit(Add/Mul), ComplexVisitor::bvisit(Add/Mul) are checked against the CONTRACT of the recursive call (any sound answer about a child's ghost "
         "complex value) for at most 2 terms/factors with small integer parts: a definite answer is true of the sum/product. Two unsound 'not real' rules are recorded as known findings "
         "(C34_REAL_TIMES_POSSIBLY_ZERO, C34_REAL_SUM_OF_NONREAL_TERMS) and the obligations are discharged on the complement of those input classes. Assumptions::is_*, the other visitors' "
         "Add/Mul/Pow rules and function-specific rules are not under contract.",
